@@ -8,13 +8,13 @@ META = {
     "id": "C29",
     "level": "proof",
     "technique": "Coq theorems (relate_cov_shape, relate_cov_constraints, xform_assoc, invert_involutive) over the Gallina model of relate + Subtype(A,B) goals through both real solvers and direct InferenceTable::relate(Covariant), returned lifetime constraints compared (as outlives closures over the external lifetimes) with the structural variance specification evaluated in Coq",
-    "level_text": "Machine-checked proofs (Coq 8.16, axiom-free): for variable-free types of the property's fragment the model's covariant relate succeeds exactly when the lifetime-erased structures agree, and the outlives goals it returns are exactly those of the independent structural definition variance_constraints (xform composed down each position; lifetime pair at Covariant gives lb: la, Contravariant la: lb, Invariant both; lifetime slot of & / &mut contravariant), plus associativity of xform and involutivity of invert.  On every run generated pairs of types (references, mutable references, raw pointers, slices, tuples, fn pointers without binders, ADTs with declared variances; lifetimes from 'static, placeholders, unknowns) are posed as `forall<'a..> { exists<'x..> { Subtype(A, B) } }` to the SLG and the recursive solver (program text with #[variance(..)] structs) and related directly on a real InferenceTable; success must coincide with structural agreement and the returned constraint sets must have the same closure over the external lifetimes as the specification (intermediate lifetime variables eliminated).",
+    "level_text": "Machine-checked proofs (Coq 8.16, axiom-free): for variable-free types of the property's fragment the model's covariant relate succeeds exactly when the lifetime-erased structures agree, and the outlives goals it returns are exactly those of the independent structural definition variance_constraints (xform composed down each position; lifetime pair at Covariant gives lb: la, Contravariant la: lb, Invariant both; lifetime slot of & / &mut contravariant), plus associativity of xform and involutivity of invert.  On every run generated pairs of types (references, mutable references, raw pointers, slices, tuples, fn pointers without binders, ADTs with declared variances; lifetimes from 'static, placeholders, unknowns) are posed as `forall<'a..> { exists<'x..> { Subtype(A, B) } }` to the SLG and the recursive solver (program text with #[variance(..)] structs) and related directly on a real InferenceTable; success must coincide with structural agreement and the returned constraint sets must have the same closure over the external lifetimes as the specification (intermediate lifetime variables eliminated).  Subtype conjunctions sharing a TYPE unknown (`exists<U> { Subtype(T1, U), Subtype(U, T2), .. }`, every shape of the systematic family, the unknown on either side) go through both solvers and relate; the answers (value of U up to renaming of fresh lifetime variables + outlives closure over the external lifetimes and the value's lifetime positions) are compared inside Coq with the model's relate-with-generalisation on the same script (Infer/VarianceU.v).",
     "level_note": "Trusted: Coq kernel; the specification variance_constraints itself (direction conventions are those blessed by tests/test/subtype.rs, DESIGN C29); harness; parsing/lowering of the goal text (cross-checked: the lowered goal must equal the generated terms). With lifetime unknowns the theorems are partial (proved for variable-free types); the correspondence covers unknowns.",
     "design_ref": "DESIGN.md section 4 C29",
     "bins": ["infer"],
     "assumptions": ["constraint sets are compared as reachability relations over the lifetimes occurring in A and B ('static has no built-in outlives axioms on either side)",
                     "a value `'x := l` in the answer substitution counts as the two requirements 'x: l and l: 'x"],
-    "quick_s": 40, "thorough_s": 400,
+    "quick_s": 55, "thorough_s": 420,
 }
 
 THEOREMS = ["relate_cov_shape", "relate_cov_constraints", "relate_cov_shape_unknowns", "relate_cov_constraints_unknowns",
@@ -97,6 +97,8 @@ def render(t, names):
         return FORALL[t[1][2]]
     if h == "HLInfer":
         return EXISTS[t[1][1]]
+    if h == "HInfer":
+        return "U"
     if h == "HScalar":
         return "u32" if t == L.U32 else "bool"
     if h == "HRef":
@@ -238,6 +240,177 @@ def requirements_from_relate(sr, nexists):
     return pairs
 
 
+# ---------------------------------------------------------------------------------------------
+# Subtype goals with a TYPE unknown: exists<U> { Subtype(T1, U), Subtype(U, T2), .. }
+# ---------------------------------------------------------------------------------------------
+def shapes(ids):
+    """The lifetime slots and type contexts of the systematic family: a list of functions lifetime -> type."""
+    A = lambda name, *cs: N(("HAdt", ids[name]), list(cs))
+    FN = lambda *cs: N(("HFnPtr", 0, "AbiRust", "Safe", False), list(cs))
+    pc = L.lph(1, 2)
+    slots = [lambda l: N(("HRef", "Not"), [l, L.U32]), lambda l: N(("HRef", "Mut"), [l, L.U32]),
+             lambda l: A("CoL", l), lambda l: A("ContraL", l), lambda l: A("InvL", l), lambda l: A("Mix", l, L.U32)]
+    ctxs = [lambda t: t, lambda t: N(("HRef", "Not"), [pc, t]), lambda t: N(("HRef", "Mut"), [pc, t]),
+            lambda t: N(("HRaw", "Not"), [t]), lambda t: N(("HRaw", "Mut"), [t]), lambda t: N("HSlice", [t]),
+            lambda t: N(("HTuple", 2), [t, L.U32]), lambda t: FN(t, L.U32), lambda t: FN(L.U32, t), lambda t: FN(FN(t, L.U32), L.U32),
+            lambda t: A("CoT", t), lambda t: A("ContraT", t), lambda t: A("InvT", t), lambda t: A("Two", t, L.U32), lambda t: A("Two", L.U32, t),
+            lambda t: A("Mix", pc, t)]
+    return [(lambda l, c=c, sl=sl: c(sl(l))) for c in ctxs for sl in slots]
+
+
+def unknown_goals(ids):
+    """For every shape T of the systematic family (a lifetime slot under a type context) and a type unknown U:
+    conjunctions of Subtype goals sharing U, whose other sides differ only in the lifetime: the unknown on the
+    right of both, on the left of both, and on different sides (both orders); for the bare slots also three
+    conjuncts and 'static.  A conjunct is (lhs, rhs); U is the unknown ?0."""
+    a, b, c3 = L.lph(1, 0), L.lph(1, 1), L.lph(1, 2)
+    U = L.ty_var(0)
+    out = []
+    for k, T in enumerate(shapes(ids)):
+        out.append([(T(a), U), (T(b), U)])
+        out.append([(U, T(a)), (U, T(b))])
+        out.append([(T(a), U), (U, T(b))])
+        out.append([(U, T(a)), (T(b), U)])
+        if k < 6:
+            out.append([(T(a), U), (T(b), U), (T(c3), U)])
+            out.append([(U, T(a)), (T(b), U), (U, T(c3))])
+            out.append([(T(L.STATIC), U), (T(a), U)])
+            out.append([(T(a), U), (T(L.STATIC), U)])
+            out.append([(T(a), U)])
+    # conjuncts whose structures disagree: no solution
+    sh = shapes(ids)
+    for k in range(6):
+        out.append([(sh[k](a), U), (sh[(k + 1) % 6](b), U)])
+        out.append([(U, sh[k](a)), (sh[(k + 1) % 6](b), U)])
+    return out
+
+
+def goal_text_u(conj, names):
+    return "forall<%s> { exists<U> { %s } }" % (", ".join(FORALL), ", ".join("Subtype(%s, %s)" % (render(x, names), render(y, names)) for (x, y) in conj))
+
+
+def unbind_u(t, depth=0):
+    if t[0] == "Var":
+        return L.ty_var(t[3]) if t[1] == "STy" else L.lph(1, t[3])
+    if t[0] != "Node":
+        return t
+    d = depth + 1 if L.hname(t) == "HFnPtr" else depth
+    return ("Node", t[1], [unbind_u(c, d) for c in t[2]])
+
+
+def fresh_atoms(t):
+    """answer-bound variable j -> the lifetime atom ?100+j"""
+    if t[0] == "Var":
+        return L.lt_var(100 + t[3])
+    if t[0] != "Node":
+        return t
+    return ("Node", t[1], [fresh_atoms(c) for c in t[2]])
+
+
+def unknown_family(ctx, ids, names, adt_tbl, viol, stats):
+    """Runs the family through both solvers and InferenceTable::relate; answers are compared inside Coq with the
+    model's (Infer.VarianceU.c29u_model: relate with generalisation on the script of the goal).  Returns the
+    scripts and real traces for the model correspondence of relate itself."""
+    goals = unknown_goals(ids)
+    U = L.ty_var(0)
+    prelude = ["SNewUniverse", ("SNewVar", 1)]
+    scripts = [(adt_tbl, [], prelude + [("SRelate", "Covariant", x, y) for (x, y) in conj]) for conj in goals]
+    solver_cases, meta = [], []
+    for gi, conj in enumerate(goals):
+        txt = goal_text_u(conj, names)
+        for sv in ("Slg", "Rec"):
+            solver_cases.append(("Subtype", sx.Str(PROGRAM), sx.Str(txt), sv))
+            meta.append((gi, sv, txt))
+    souts = core.run_harness("infer", solver_cases, args=["subtype"], timeout=300)
+    traces, raw = L.run_scripts(scripts)
+    inputs, expected, info = [], [], []
+
+    def ext_of(conj):
+        out = []
+        for (x, y) in conj:
+            for l in lifetimes_of(x) + lifetimes_of(y):
+                if l not in out:
+                    out.append(l)
+        return out
+
+    def record(gi, who, summary, txt, shown):
+        inputs.append(Pair(Pair(L.coq_case(*scripts[gi]), 0), ext_of(goals[gi])))
+        expected.append(summary)
+        info.append((gi, who, txt, shown))
+
+    for (gi, sv, txt), o in zip(meta, souts):
+        v = sx.parse_sexp(o) if o and o.startswith("(") else None
+        if not (isinstance(v, tuple) and v[0] == "Sol"):
+            raise core.CheckFailure("solver harness failed on %s: %s" % (txt, (o or "")[:300]))
+        body = v[3]
+        while L.hname(body) in ("HQuantified", "HBinders"):
+            body = body[2][0]
+        cj = body[2] if L.hname(body) == "HAll" else [body]
+        low = [(unbind_u(g[2][0]), unbind_u(g[2][1])) for g in cj]
+        if low != [(x, y) for (x, y) in goals[gi]]:
+            raise core.CheckFailure("goal text does not lower to the generated terms: %s" % txt)
+        ans = v[5]
+        ctx.count("unknown-solver:" + sv, sv + "|" + txt, nontrivial=True)
+        if isinstance(ans, tuple) and ans[0] == "Unique":
+            stats["u_unique"] += 1
+            k = v[4][0]
+            if k == "None":
+                raise core.CheckFailure("the type unknown is not in the answer substitution: %s" % txt)
+            val = fresh_atoms(ans[2][k[1]])
+            reqs = [Pair(fresh_atoms(c[2][0]), fresh_atoms(c[2][1])) for c in ans[3] if L.hname(c) == "HLtOutlives"]
+            record(gi, sv, ("Some", Pair(val, reqs)), txt, sx.to_sexp(ans)[:600])
+        elif ans == "NoSolution":
+            stats["u_nosolution"] += 1
+            record(gi, sv, "None", txt, "NoSolution")
+        else:
+            stats["u_ambig"] += 1
+            if len(viol) < 4:
+                viol.append(1)
+                ctx.violation({"kind": "property", "what": "a Subtype conjunction over closed types and one type unknown has neither a unique answer nor no solution",
+                               "who": sv, "goal": txt, "program": PROGRAM, "got": sx.to_sexp(ans)[:300]})
+    for gi, tr in enumerate(traces):
+        if tr is None:
+            raise core.CheckFailure("infer harness could not run a C29 unknown-type script")
+        txt = goal_text_u(goals[gi], names)
+        ctx.count("unknown-relate", "relate|" + txt, nontrivial=True)
+        rel = [sr for s_, sr in zip(scripts[gi][2], tr) if s_ != "SNewUniverse" and s_[0] == "SRelate"]
+        if len(rel) == len(goals[gi]) and all(sr.kind == "Ok" for sr in rel):
+            stats["u_relate_ok"] += 1
+            st = rel[-1].state
+            gs = [g for sr in rel for g in sr.goals]
+            reqs = []
+            for g in L.norm_goals(st, gs):
+                if L.hname(g) == "HDomainGoal" and L.hname(g[2][0][2][0]) == "HLtOutlives":
+                    w = g[2][0][2][0]
+                    reqs.append(Pair(w[2][0], w[2][1]))
+            record(gi, "InferenceTable::relate", ("Some", Pair(st.deep(U), reqs)), txt, "relate: U = %s" % sx.to_sexp(st.deep(U))[:300])
+        else:
+            stats["u_relate_err"] += 1
+            record(gi, "InferenceTable::relate", "None", txt, "relate: " + "/".join(sr.kind for sr in rel))
+    for conj in goals[:2]:
+        ctx.sample({"goal": goal_text_u(conj, names)})
+    uniq, where = {}, []
+    for inp, exp in zip(inputs, expected):
+        where.append(uniq.setdefault(sx.to_sexp(inp) + "|" + sx.to_sexp(exp), len(uniq)))
+    upairs = [None] * len(uniq)
+    for (inp, exp), k in zip(zip(inputs, expected), where):
+        upairs[k] = (inp, exp)
+    ubad = set(core.coq_mismatches(ctx.work, "specu", IMPORTS + ["Infer.VarianceU"], fn="c29u_model", eqb="c29u_eqb",
+                                   in_ty="case_t * N * list tm", out_ty="option (tm * list (tm * tm))",
+                                   pairs=upairs, shard=max(100, (len(upairs) + core.NCPU - 1) // core.NCPU)))
+    bad = [j for j, k in enumerate(where) if k in ubad]
+    ctx.cov["unknown_type_goals"] = {"goals": len(goals), "comparisons": len(where), "distinct": len(upairs), "mismatches": len(bad)}
+    for j in bad:
+        gi, who, txt, shown = info[j]
+        if len(viol) < 4:
+            viol.append(1)
+            ctx.violation({"kind": "property", "what": "the answer to a Subtype conjunction with a type unknown differs from the model's relate with generalisation "
+                                                       "(value of the unknown up to renaming of fresh lifetime variables + outlives closure over the external lifetimes and the value's lifetime positions)",
+                           "who": who, "goal": txt, "program": PROGRAM, "answer": shown,
+                           "script": sx.to_sexp(L.harness_case(*scripts[gi]))})
+    return scripts, traces
+
+
 def run(ctx):
     ok, why = ctx.proof_stage("Props.C29", THEOREMS)
     core.build_harness(bins=["infer"])
@@ -278,7 +451,8 @@ def run(ctx):
     traces, raw = L.run_scripts(scripts)
     viol = []
     spec_inputs, spec_expected, spec_meta = [], [], []
-    stats = {"unique": 0, "nosolution": 0, "ambig": 0, "relate_ok": 0, "relate_err": 0, "shape_mismatch_pairs": 0, "with_unknowns": 0}
+    stats = {"unique": 0, "nosolution": 0, "ambig": 0, "relate_ok": 0, "relate_err": 0, "shape_mismatch_pairs": 0, "with_unknowns": 0,
+             "u_unique": 0, "u_nosolution": 0, "u_ambig": 0, "u_relate_ok": 0, "u_relate_err": 0}
 
     def record(a, b, who, reqs, txt):
         ext = lifetimes_of(a) + [x for x in lifetimes_of(b) if x not in lifetimes_of(a)]
@@ -374,7 +548,11 @@ def run(ctx):
         elif not viol:
             ctx.violation({"kind": "correspondence", "goal": txt, "who": who,
                            "broken": "Coq specification Infer.Variance.variance_constraints disagrees with the implementation although the python reading of the same definition agrees"}, no_input=True)
+    # Subtype conjunctions with a type unknown (generalisation)
+    uscripts, utraces = unknown_family(ctx, ids, names, adt_tbl, viol, stats)
     # direct relate vs the model of relate
+    scripts = scripts + uscripts
+    traces = traces + utraces
     badm = L.model_mismatches(ctx, "relate", scripts, traces, shard=ctx.n(150, 600))
     ctx.cov["model_mismatches"] = len(badm)
     for j in badm[:2]:
@@ -385,6 +563,7 @@ def run(ctx):
     ctx.cov["outcomes"] = stats
     ctx.cov["rule"] = ("pairs of types derived from one skeleton (depth <= %d; &, &mut, *const/*mut, slices, tuples, fn pointers without binders, 8 ADTs with declared variances) with independently chosen lifetimes "
                        "('static, 3 placeholders, 2 unknowns; every second pair without unknowns; a quarter with a structural edit), posed to SLG, recursive solver and InferenceTable::relate(Covariant); "
+                       "plus the deterministic type-unknown family: for each of the 96 shapes (6 lifetime slots x 16 type contexts) conjunctions of 2-3 Subtype goals sharing one type unknown (unknown right/right, left/left, right/left, left/right; 'static variants, single goals and structurally disagreeing conjuncts for the bare slots), via SLG, recursive solver and relate, compared with the model's relate with generalisation; "
                        "non-trivial = composite types" % ctx.n(3, 4))
     if not ok:
         ctx.violation({"kind": "proof", "broken": why}, no_input=True)
